@@ -683,6 +683,15 @@ pub enum Accepted {
 /// application can interleave `shutdown(n)` calls "at any moment" without cancelling a future in
 /// the middle of an internal write (accept() is not documented as cancel-safe).
 pub async fn accept_or_gate(c: &mut h3::server::Connection<SimConn, SimBuf>, gate: Option<&Gate>) -> Accepted {
+    if gate.is_none() {
+        // nothing can interrupt the wait: the application calls accept() itself
+        obs::count("probe.accept_called_directly");
+        return match c.accept().await {
+            Ok(Some(r)) => Accepted::Request(r),
+            Ok(None) => Accepted::Done,
+            Err(e) => Accepted::Err(e),
+        };
+    }
     let r = poll_fn(|cx| {
         if let std::task::Poll::Ready(r) = c.poll_accept_request_stream(cx) {
             return std::task::Poll::Ready(Some(r));
